@@ -56,7 +56,7 @@ def gen_macro(rng, idx, earlier):
                 else: args.append(('lit', rng.choice(['X', 'Y+', '-Z'])))
             body.append(('call', m, args))
         elif r < .8:
-            body.append(('seg', rng.choice([['.dseg', 'mv%d_%d: .byte 2' % (idx, len(body)), '.cseg'], ['.eseg', '.db 1, 2, 3', '.cseg']])))
+            body.append(('seg', rng.choice([['.dseg', '.byte %d' % rng.randrange(1, 5), '.cseg'], ['.eseg', '.db 1, 2, 3', '.cseg']])))
         else:
             body.append(('ins', rng.choice(['nop', 'ldi r17, 5', '.db 1, 2', 'ret'])))
     return M('Mac%d' % idx, kinds, body)
